@@ -682,11 +682,11 @@ package tchannel
 // The exchange-set callbacks re-evaluate connection/channel/peer state; they
 // never touch exchanges, fragments, frames or read buffers (assumed, T4).
 //@ funcfield messageExchangeSet.onRemoved()
-//@   modifies allbut errAttempts, readableFragment, Frame, messageExchangeSet, messageExchange, typed.ReadBuffer, cs, own
+//@   modifies allbut errAttempts, readableFragment, Frame, messageExchangeSet, messageExchange, typed.ReadBuffer, cs, own, InboundCallResponse, InboundCall, ncancel
 //@ funcfield messageExchangeSet.onAdded()
-//@   modifies allbut errAttempts, readableFragment, Frame, messageExchangeSet, messageExchange, typed.ReadBuffer, cs, own
+//@   modifies allbut errAttempts, readableFragment, Frame, messageExchangeSet, messageExchange, typed.ReadBuffer, cs, own, InboundCallResponse, InboundCall, ncancel, Connection
 //@ funcfield messageExchangeSet.onCancel(id uint32)
-//@   modifies all
+//@   modifies allbut own
 
 // Ids in flight are distinct: a second exchange for an id that is still
 // registered is refused and the table is left unchanged.
@@ -721,33 +721,37 @@ package tchannel
 
 //@ func (mexset *messageExchangeSet) removeExchange(msgID uint32)
 //@   requires MexSetOK(mexset)
-//@   modifies allbut errAttempts, own, Frame
+//@   modifies allbut errAttempts, own, Frame, InboundCallResponse, InboundCall, readableFragment, ncancel
 //@   property C04 C10
 
 //@ func (mexset *messageExchangeSet) expireExchange(msgID uint32)
 //@   requires MexSetOK(mexset)
-//@   modifies all
+//@   modifies allbut ncancel
 //@   property C04 C14
 
 //@ func (mex *messageExchange) shutdown()
 //@   requires MexSetOK(mex.mexset)
-//@   modifies allbut errAttempts, own, Frame
+//@   modifies allbut errAttempts, own, Frame, InboundCallResponse, InboundCall, readableFragment, ncancel
 //@   property C04 C10
 
 // A frame is only ever offered to the exchange registered under the frame's own id.
 //@ func (mex *messageExchange) forwardPeerFrame(frame *Frame) (err error)
 //@   requires own(frame) == 1
+//@   label queued-frames-are-well-formed
+//@   requires FrameFull(frame) && frame.Header.size >= 16
 //@   label frame-offered-to-its-own-exchange-only
 //@   requires mex.msgID == frame.Header.ID
 //@   requires mex.ctx != nil
 //@   modifies nothing
-//@   property C04
+//@   property C04 C20
 
 //@ func (mexset *messageExchangeSet) forwardPeerFrame(frame *Frame) (err error)
 //@   requires MexSetOK(mexset) && MexSetInv(mexset) && own(frame) == 1
+//@   label queued-frames-are-well-formed
+//@   requires FrameFull(frame) && frame.Header.size >= 16
 //@   requires forall k uint32 :: has(mexset.exchanges, k) ==> mexset.exchanges[k].ctx != nil
 //@   modifies nothing
-//@   property C04 C03
+//@   property C04 C03 C20
 
 //@ func (w *reqResWriter) failed(err error) (e error)
 //@   requires w.log != nil && w.mex != nil && MexSetOK(w.mex.mexset)
@@ -884,22 +888,22 @@ package tchannel
 //@ functype onDoneFunc()
 //@   modifies all
 //@ funcfield readableFragment.onDone()
-//@   modifies allbut fragmentingReader, readableFragment, cs, nrecv
+//@   modifies allbut fragmentingReader, readableFragment, cs, nrecv, doneCalls, doneCode, InboundCallResponse, errAttempts
 
 //@ ghostfield nrecv
 //@ iface fragmentReceiver.recvNextFragment(intial bool) (f *readableFragment, err error)
-//@   modifies allbut fragmentingReader, cs
+//@   modifies allbut fragmentingReader, cs, doneCalls, doneCode
 //@   ensures err == nil ==> RF(f) && !f.isDone
 //@   ensures nrecv(self) == old(nrecv(self)) + 1
 //@   label receivers-never-report-io.EOF
 //@   ensures err != io.EOF
 //@ iface fragmentReceiver.doneReading(unexpectedErr error)
-//@   modifies allbut fragmentingReader, readableFragment, cs, nrecv
+//@   modifies allbut fragmentingReader, readableFragment, cs, nrecv, fragErrIsMsg, fragErrCode, fragErrMsg, SystemError
 
 // done: the release callback runs at most once per fragment.
 //@ func (f *readableFragment) done()
 //@   requires f.onDone != nil
-//@   modifies allbut fragmentingReader, cs, nrecv
+//@   modifies allbut fragmentingReader, cs, nrecv, doneCalls, doneCode, InboundCallResponse, errAttempts
 //@   ensures f.isDone
 //@   property C12 C01
 
@@ -1081,7 +1085,7 @@ package tchannel
 
 //@ func (c *Connection) checkExchanges()
 //@   nosafety
-//@   modifies allbut errAttempts
+//@   modifies allbut errAttempts, closeReq, connErrs, connErrCode, sysErrID, sysErrCode, sysErrMsg
 //@   property C07
 
 //@ func (ch *Channel) Close()
@@ -1111,7 +1115,7 @@ package tchannel
 
 //@ func (c *Connection) SendSystemError(id uint32, span Span, err error) (sendErr error)
 //@   nosafety
-//@   modifies all
+//@   modifies allbut InboundCallResponse, Relayer, relayItems, relayItem, messageExchange, messageExchangeSet, connFailed, connFailSys, lookupHit
 //@   defines errAttempts(c) == old(errAttempts(c)) + 1
 //@   property C07 C20
 
